@@ -413,7 +413,7 @@ func c15(c *core.Ctx, r *core.Report) {
 					r.OK(key, an.Pos(c, in), "%s ← %s, only when unset", dstD, srcD)
 					return
 				}
-				if dstD == "$c.Default.Concurrency" && srcD == "$c.Limits.Concurrency" {
+				if dstD == "$recv.Default.Concurrency" && srcD == "$recv.Limits.Concurrency" {
 					r.OK(key, an.Pos(c, in), "frozen exception: the users default falls back to the global concurrency limit (documented), only when unset")
 					return
 				}
